@@ -13,6 +13,105 @@ from .stepclock import StepClock
 
 INF = 1 << 60
 WATCHDOG_S = 120
+_tls = threading.local()
+
+
+class SimDeadlock(BaseException):
+    """Every simulated thread waits for a lock another one holds."""
+
+
+class SimLock(object):
+    """Replacement for threading.Lock / RLock objects owned by the code under test.  Under the baton
+    scheduler a contended acquire parks the thread (it stops being runnable) and hands the baton on; the
+    release makes the waiters runnable again.  Outside a simulated thread it behaves like the real thing."""
+
+    def __init__(self, reentrant=False):
+        self._real = threading.RLock() if reentrant else threading.Lock()
+        self.reentrant = reentrant
+        self.owner = None
+        self.count = 0
+
+    def acquire(self, blocking=True, timeout=-1):
+        baton = getattr(_tls, 'baton', None)
+        if baton is None:
+            me = threading.get_ident()
+            if not self.reentrant and blocking and self._real.locked() and getattr(self, '_ident', None) == me:
+                # a real Lock would hang here forever: the thread waits for itself (nested evaluation)
+                raise SimDeadlock('thread re-acquires a non-reentrant lock it already holds')
+            ok = self._real.acquire(blocking, timeout)
+            if ok:
+                self._ident = me
+            return ok
+        tid = _tls.tid
+        if not self.reentrant and blocking and self.owner == tid:
+            raise SimDeadlock('thread re-acquires a non-reentrant lock it already holds')
+        while True:
+            if self.owner is None:
+                self.owner, self.count = tid, 1
+                return True
+            if self.reentrant and self.owner == tid:
+                self.count += 1
+                return True
+            if not blocking:
+                return False
+            baton.block(tid, self)
+
+    def release(self):
+        baton = getattr(_tls, 'baton', None)
+        if baton is None:
+            return self._real.release()
+        if self.owner != _tls.tid and self.reentrant:
+            raise RuntimeError('cannot release un-acquired lock')
+        self.count -= 1
+        if self.count <= 0:
+            self.owner, self.count = None, 0
+            baton.unblock(self)
+
+    def locked(self):
+        return self.owner is not None or (getattr(_tls, 'baton', None) is None and self._real.locked())
+
+    __enter__ = acquire
+
+    def __exit__(self, *a):
+        self.release()
+
+
+def install_lock_seam():
+    """Give the code under test (hotxlfp, ply) simulated locks: its modules' `threading` name becomes a shim whose
+    Lock/RLock build SimLocks, and lock objects that already exist at module or class level are swapped."""
+    import sys
+    import types
+    import _thread
+    shim = types.ModuleType('threading')
+    for k in dir(threading):
+        if not k.startswith('__'):
+            setattr(shim, k, getattr(threading, k))
+    shim.Lock = lambda: SimLock(False)
+    shim.RLock = lambda: SimLock(True)
+    real_types = (type(threading.Lock()), type(threading.RLock()))
+    n = 0
+    for name, mod in list(sys.modules.items()):
+        if mod is None or not (name == 'hotxlfp' or name.startswith('hotxlfp.') or name == 'ply' or name.startswith('ply.')):
+            continue
+        for attr, val in list(vars(mod).items()):
+            if val is threading:
+                setattr(mod, attr, shim)
+                n += 1
+            elif val is threading.Lock or val is _thread.allocate_lock:
+                setattr(mod, attr, shim.Lock)
+                n += 1
+            elif val is threading.RLock:
+                setattr(mod, attr, shim.RLock)
+                n += 1
+            elif isinstance(val, real_types):
+                setattr(mod, attr, SimLock(isinstance(val, real_types[1])))
+                n += 1
+            elif isinstance(val, type) and getattr(val, '__module__', None) == name:
+                for a2, v2 in list(vars(val).items()):
+                    if isinstance(v2, real_types):
+                        setattr(val, a2, SimLock(isinstance(v2, real_types[1])))
+                        n += 1
+    return n
 
 
 class HarnessStuck(Exception):
@@ -37,19 +136,52 @@ class Baton(object):
         self.switch_locs = Counter()
         self.stuck = None
         self.errors = []
+        self.blocked = {}       # tid -> SimLock it waits for
+        self.deadlock = False
+        self.lock_blocks = 0
         for tid, c in enumerate(self.clocks):
             c.hook = self._make_hook(tid)
 
     # -- decisions -----------------------------------------------------------
+    def block(self, tid, lock):
+        """Thread tid (the baton holder) found `lock` taken: park it and let somebody runnable go on."""
+        clock = self.clocks[tid]
+        self.log.append([tid, clock.steps - self.seg_start[tid]])
+        self.blocked[tid] = lock
+        self.lock_blocks += 1
+        nxt, k = self._next()
+        if nxt is None:
+            # nobody can run: every live thread waits for a lock
+            self.deadlock = True
+            del self.blocked[tid]
+            for t in list(self.blocked):
+                del self.blocked[t]
+            raise SimDeadlock('all simulated threads are blocked on locks')
+        self.switches += 1
+        self.pending_len[nxt] = k
+        self.sems[nxt].release()
+        self._wait(tid)
+        if self.deadlock:
+            raise SimDeadlock('all simulated threads are blocked on locks')
+        self.seg_start[tid] = clock.steps
+        clock.hook_at = clock.steps + self.pending_len[tid]
+        clock._recompute()
+
+    def unblock(self, lock):
+        for t in [t for t, l in self.blocked.items() if l is lock]:
+            del self.blocked[t]
+
     def _next(self):
-        alive = [t for t in range(self.n) if self.alive[t]]
+        alive = [t for t in range(self.n) if self.alive[t] and t not in self.blocked]
         if not alive:
+            if any(self.alive[t] for t in range(self.n)) and self.blocked:
+                return None, 0
             return None, 0
         if self.replay is not None:
             while self.rpos < len(self.replay):
                 t, k = self.replay[self.rpos]
                 self.rpos += 1
-                if 0 <= t < self.n and self.alive[t] and k > 0:
+                if t in alive and k > 0:
                     return t, k
             return alive[0], INF
         t = alive[self.rng.randrange(len(alive))] if len(alive) > 1 else alive[0]
@@ -101,6 +233,8 @@ class Baton(object):
 
     def _body(self, tid, body):
         clock = self.clocks[tid]
+        _tls.baton = self
+        _tls.tid = tid
         try:
             self._wait(tid)
             self.seg_start[tid] = clock.steps
@@ -115,8 +249,16 @@ class Baton(object):
             clock.disarm()
         self.log.append([tid, clock.steps - self.seg_start[tid]])
         self.alive[tid] = False
+        _tls.baton = None
         nxt, k = self._next()
         if nxt is None:
+            if self.blocked:
+                # the last runnable thread ended while others still wait for a lock nobody will release
+                self.deadlock = True
+                for t in list(self.blocked):
+                    del self.blocked[t]
+                    self.sems[t].release()
+                return
             self.main.release()
         else:
             self.pending_len[nxt] = k
